@@ -257,7 +257,13 @@ func genLogEx(k *kernel.K, id, conn int, last bool, odd bool) *logEx {
 		rs.Header = append(rs.Header, wire.HF{Name: "Content-Type", Value: e.respCT})
 	}
 	if e.respCE != "" {
-		rs.Header = append(rs.Header, wire.HF{Name: "Content-Encoding", Value: e.respCE})
+		spelled := e.respCE
+		if (e.respCE == "gzip" || e.respCE == "deflate") && w.Chance(1, 5) {
+			// content-coding names are case-insensitive; "x-gzip" is to be treated as "gzip"
+			spelled = map[string][]string{"gzip": {"GZIP", "Gzip", "x-gzip"}, "deflate": {"Deflate", "DEFLATE", "Deflate"}}[e.respCE][w.Draw(3)]
+			k.Probe("content_coding_spelled_differently")
+		}
+		rs.Header = append(rs.Header, wire.HF{Name: "Content-Encoding", Value: spelled})
 	}
 	for i, n := 0, w.Draw(3); i < n; i++ {
 		c := [2]string{fmt.Sprintf("s%d", i), fmt.Sprintf("sv%d-%d", id, i)}
